@@ -275,7 +275,7 @@ func TestVerifC16(t *testing.T) {
 	out := vhOpen(t)
 	defer out.Close()
 	rng := vhRand()
-	runs := 8
+	runs := 6
 	if vhThorough() {
 		runs = 60
 	}
@@ -509,5 +509,82 @@ func TestVerifC16Probes(t *testing.T) {
 		}
 		out.Emit(map[string]interface{}{"kind": "probe", "name": "clone-getattr-vs-writer", "answered": ok,
 			"what": "Twalkgetattr with no names held in Walk(nil) while Tsetattr on the same path (other connection) queues for the node lock; then released"})
+	}
+	{ // a backend panic inside the walk fallback's GetAttr (EFAULT) must not leave the child's node locked
+		fs := vhgNewFS()
+		vh16Seed(fs, 1)
+		env, err := vhgStart(fs, 1)
+		if err != nil {
+			t.Fatal(err)
+		}
+		root, _ := env.clients[0].Attach("")
+		_, dir, err1 := root.Walk([]string{"c0"})
+		_, f, err2 := root.Walk([]string{"c0", "a"})
+		if err1 != nil || err2 != nil {
+			t.Fatal(err1, err2)
+		}
+		fs.mu.Lock()
+		fs.panicOn = &vhgGate{method: "GetAttr", path: "/c0/a"}
+		fs.mu.Unlock()
+		_, _, _, _, werr := dir.WalkGetAttr([]string{"a"})
+		ok := vh16Probe(func() { f.SetAttr(SetAttrMask{Size: true}, SetAttr{Size: 1}) })
+		out.Emit(map[string]interface{}{"kind": "probe", "name": "panic-in-walk-getattr", "answered": ok, "walk_errno": vh16Errno(werr),
+			"what": "backend panics in GetAttr of the Walk+GetAttr fallback (Twalkgetattr a from /c0); then Tsetattr on /c0/a through another fid"})
+		if ok {
+			env.stop(5 * time.Second)
+		}
+	}
+	// File lifecycle under rename: the Close of a clunked fid is parked in the backend while a rename
+	// touches its entry (file rename) / its directory (directory rename); the monitor log is checked.
+	for _, dirRename := range []bool{false, true} {
+		fs := vhgNewFS()
+		vh16Seed(fs, 1)
+		fs.add("/c0/sub/f", ModeRegular|0o644, "x")
+		fs.dirMove = true
+		env, err := vhgStart(fs, 2)
+		if err != nil {
+			t.Fatal(err)
+		}
+		r0, _ := env.clients[0].Attach("")
+		r1, _ := env.clients[1].Attach("")
+		_, dir, err1 := r0.Walk([]string{"c0"})
+		target := []string{"c0", "a"}
+		if dirRename {
+			target = []string{"c0", "sub", "f"}
+		}
+		_, victim, err2 := r1.Walk(target)
+		if err1 != nil || err2 != nil {
+			t.Fatal(err1, err2)
+		}
+		gp := "/c0/a"
+		if dirRename {
+			gp = "/c0/sub/f"
+		}
+		g := fs.arm("Close", gp, 0)
+		dC := make(chan struct{})
+		go func() { victim.Close(); close(dC) }()
+		select {
+		case <-g.reached:
+		case <-time.After(10 * time.Second):
+			t.Fatal("Close not reached")
+		}
+		from := fs.logLen()
+		name := "lifecycle-file-rename"
+		ok := true
+		if dirRename {
+			name = "lifecycle-dir-rename"
+			ok = vh16Probe(func() { dir.RenameAt("sub", dir, "sub2") })
+		} else {
+			ok = vh16Probe(func() { dir.RenameAt("a", dir, "z") })
+		}
+		close(g.release)
+		<-dC
+		ev := fs.snapshot()
+		out.Emit(vh16Obs{Kind: "log", Run: -1, Cfg: name, Events: ev})
+		_ = from
+		out.Emit(map[string]interface{}{"kind": "probe", "name": name, "answered": ok, "what": "rename answered while a clunked fid's Close is parked in the backend"})
+		if ok {
+			env.stop(5 * time.Second)
+		}
 	}
 }
